@@ -14,6 +14,8 @@ def run(chk):
     chk.rule("R1", "ToStandard denotes value -> a*value + b with (a, b) exactly the magnitude/offset implied by the unit's symbol")
     chk.rule("R2", "FromStandard o ToStandard is the identity as affine maps over Q(pi)")
     chk.rule("R3", "MapOfConversions{To,From}Standard<U,T>[X] is Conversions<U,X>::{To,From}Standard<T>, which applies Conversion<U,X> to each of `size` elements")
+    chk.rule("R4b", "rigorous bound for each multiplicative direction: the constants are evaluated exactly as IEEE round-to-nearest arithmetic in T would, "
+                    "giving |machine factor / exact factor - 1| in ulps, plus one ulp per rounding on the value path (and one per libm pow): <= 8 ulp per direction (tree maximum 4.3)")
     chk.rule("R4", "a multiplicative unit's path uses only * and / by constants; K roundings on To+From gives at most K ulps; K <= 32")
     chk.assumptions += [
         "R4 bounds the relative error by K*u/(1-K*u) in the standard model of floating-point arithmetic, assuming no overflow/underflow; it does not establish the tighter measured figure",
@@ -22,6 +24,8 @@ def run(chk):
     ]
     n_types = n_units = n_bodies = 0
     kmax = {}
+    ulp_max = {}
+    n_r4b = [0]
     for T in NUMERIC:
         F = facts.load(T, chk.tier)
         M = UnitModel(F)
@@ -81,6 +85,28 @@ def run(chk):
                     else:
                         chk.holds("R4", inst, "K=%d roundings, bound %d ulp" % (K, K), loc_to, nontrivial=K > 0)
                     kmax[T] = max(kmax.get(T, 0), K)
+                    # R4b: exact machine evaluation of the constants => a rigorous per-direction ulp bound
+                    for direction, a_x, sym_factor in (("ToStandard", a_to, A), ("FromStandard", a_fr, affine.n_inv(A))):
+                        try:
+                            if a_x.A == affine.num(1):
+                                continue
+                            fhat, nops, extra = affine.machine_factor(a_x.term, "v", T)
+                            (kk, q), = sym_factor.items()
+                            exact = q * affine.rounded_pi("long double") ** kk if kk else q
+                            if kk:
+                                # pi is irrational: use a 200-bit rational approximation for the comparison
+                                from fractions import Fraction as Fr
+                                PI = Fr("3.14159265358979323846264338327950288419716939937510582097494459230781640628620899")
+                                exact = q * PI ** kk
+                            rel = abs(fhat / exact - 1)
+                            ulps = float(rel * 2 ** affine.MANT[T]) + nops + extra
+                            ulp_max[T] = max(ulp_max.get(T, 0.0), ulps)
+                            if ulps > 8.0:
+                                chk.violated("R4b", inst + ":" + direction, "rigorous bound %.2f ulp (> 8): machine factor %s vs exact; %d rounding(s) on the value" % (ulps, float(fhat), nops), loc_to)
+                            else:
+                                n_r4b[0] += 1
+                        except ev.Inconclusive as x:
+                            chk.inconclusive("R4b", inst + ":" + direction, str(x), loc_to)
                 else:
                     chk.observe("affine unit %s: ulp bound near cancellation not decided (%s)" % (inst, d_to))
             # R3 dispatch tables
@@ -126,6 +152,8 @@ def run(chk):
     chk.coverage["conversion_bodies_analysed"] = n_bodies
     chk.coverage["max_roundings_to_plus_from"] = kmax
     chk.coverage["implied_ulp_bound"] = kmax
+    chk.coverage["rigorous_ulp_bound_per_direction"] = {k: round(v, 3) for k, v in ulp_max.items()}
+    chk.holds("R4b", "all multiplicative directions", "%d directions bounded; worst %s ulp" % (n_r4b[0], {k: round(v, 2) for k, v in ulp_max.items()}), "") if n_r4b[0] else None
 
 
 def conversions_loop_ok(F, f, ut, name, direction, T):
